@@ -34,7 +34,12 @@ fn main() {
     common::tick_global("start");
     std::thread::Builder::new().stack_size(256 << 20).spawn(move || {
         common::install_panic_hook();
-        let code = run_cmd(&cmd2, &opt);
+        // a panic of the harness itself (not of a call into the implementation, which is caught
+        // where it is made) is reported with its message
+        let code = match std::panic::catch_unwind(std::panic::AssertUnwindSafe(|| run_cmd(&cmd2, &opt))) {
+            Ok(c) => c,
+            Err(_) => { eprintln!("harness panicked: {}", common::last_panic()); 3 }
+        };
         let _ = tx.send(code);
     }).unwrap();
     let limit = std::time::Duration::from_secs(45);
